@@ -3,7 +3,7 @@ matrix: fault kind x syntactic position x enclosing construct, in multi-line pro
 after and contain an input probe after the fault.  Own predicate on the implementation alone: status 70, first
 diagnostic = the planted kind at the planted line, stdout ends before the fault (no 'after', no prompt), the run
 terminates; a fault-free twin exits 0 with empty stderr."""
-import core, lang, pools, progs
+import core, lang, pools, progs, kernel
 from lang import *  # noqa
 from props.common import sub_rng, diff_runs, replay_generic, corpus_cases
 
@@ -173,6 +173,7 @@ def run(env, tier, seed, broken=None):
         if mf is None or r['timeout'] or mf[0].startswith('noresult'):
             continue
         mstatus, mevents, mitems = (mf + ['', '', ''])[:3]
+        kernel.offer_frun(c['src'], c.get('stdin', ''), mf)
         g = core.parse_stderr(r['stderr'].decode('utf-8', 'replace'))
         ml = mitems.split(' ') if mitems else []
         multi += len(g) > 1
